@@ -77,55 +77,64 @@ func conjuncts(x *sx) []*sx {
 	return []*sx{x}
 }
 
-// splitGoal splits a goal into goals whose conjunction is equivalent to it.
+// splitGoal splits a goal into goals whose conjunction is equivalent to it: conjunctions are split,
+// also below universal quantifiers and on the right of implications.
 func splitGoal(cond string) []string {
-	x := parseSx(cond)
-	var out []string
+	parts := splitSx(parseSx(cond))
+	if len(parts) <= 1 {
+		return []string{cond}
+	}
+	if len(parts) > 24 {
+		return []string{cond}
+	}
+	out := make([]string, len(parts))
+	for i, p := range parts {
+		out[i] = p.String()
+	}
+	return out
+}
+
+func splitSx(x *sx) []*sx {
 	switch x.head() {
 	case "and":
-		for _, c := range conjuncts(x) {
-			out = append(out, splitGoal(c.String())...)
+		var out []*sx
+		for _, c := range x.list[1:] {
+			out = append(out, splitSx(c)...)
+		}
+		return out
+	case "!":
+		if len(x.list) >= 2 {
+			return splitSx(x.list[1])
 		}
 	case "forall":
-		if len(x.list) != 3 {
-			return []string{cond}
-		}
-		binders, body := x.list[1], x.list[2]
-		if body.head() == "!" && len(body.list) >= 2 {
-			body = body.list[1] // pattern annotations are irrelevant in a goal
-		}
-		if body.head() == "=>" && len(body.list) == 3 {
-			cs := conjuncts(body.list[2])
-			if len(cs) == 1 {
-				return []string{cond}
+		if len(x.list) == 3 {
+			var out []*sx
+			for _, b := range splitSx(x.list[2]) {
+				out = append(out, &sx{list: []*sx{{atom: "forall"}, x.list[1], b}})
 			}
-			for _, c := range cs {
-				out = append(out, "(forall "+binders.String()+" (=> "+body.list[1].String()+" "+c.String()+"))")
-			}
-		} else {
-			cs := conjuncts(body)
-			if len(cs) == 1 {
-				return []string{cond}
-			}
-			for _, c := range cs {
-				out = append(out, "(forall "+binders.String()+" "+c.String()+")")
-			}
+			return out
 		}
 	case "=>":
 		if len(x.list) == 3 {
-			cs := splitGoal(x.list[2].String())
-			if len(cs) == 1 {
-				return []string{cond}
+			var out []*sx
+			for _, c := range splitSx(x.list[2]) {
+				out = append(out, &sx{list: []*sx{{atom: "=>"}, x.list[1], c}})
 			}
-			for _, c := range cs {
-				out = append(out, "(=> "+x.list[1].String()+" "+c+")")
-			}
+			return out
 		}
-	default:
-		return []string{cond}
+	case "ite":
+		// (ite c a b) as a formula: (c => a) and (not c => b)
+		if len(x.list) == 4 {
+			var out []*sx
+			for _, a := range splitSx(x.list[2]) {
+				out = append(out, &sx{list: []*sx{{atom: "=>"}, x.list[1], a}})
+			}
+			nc := &sx{list: []*sx{{atom: "not"}, x.list[1]}}
+			for _, b := range splitSx(x.list[3]) {
+				out = append(out, &sx{list: []*sx{{atom: "=>"}, nc, b}})
+			}
+			return out
+		}
 	}
-	if len(out) == 0 {
-		return []string{cond}
-	}
-	return out
+	return []*sx{x}
 }
